@@ -55,7 +55,8 @@ class World:
     required_probes = ["coarser_add_accepted_or_refused", "convert_4_3", "convert_3_2", "convert_3_1", "convert_2_0",
                        "convert_1_0", "convert_multi_step", "add_after_conversion", "first_add_sets_resolution",
                        "container_passthrough", "type_level_add_into_pathways", "spectrum_object_view",
-                       "derived_spectrum_of_a_stored_block_modified", "first_data_assigned_through_the_data_property"]
+                       "derived_spectrum_of_a_stored_block_modified", "first_data_assigned_through_the_data_property",
+                       "two_responses_filled_through_the_data_property", "container_filled_out_of_axis_order"]
     required_faults = list(FAULT_KINDS)
     components = {
         "real": ["TwoDResponse / TwoDSpectrumBase: _add_data, set_resolution, _convert_resolution, d__data getter/setter "
@@ -513,6 +514,23 @@ class World:
                 accepted[0] += 1
                 if not was_init:
                     ctx.probe("first_data_assigned_through_the_data_property")
+                    # another response receives ITS first data the same way: the two objects share nothing
+                    other = TwoDResponse()
+                    other.set_axis_1(qr.FrequencyAxis(0.0, nx, 1.0))
+                    other.set_axis_3(qr.FrequencyAxis(0.0, ny, 1.0))
+                    Y = payload(op["pay"] + 1)
+                    try:
+                        other.set_resolution("off")
+                        other.set_data_flag(TOTL)
+                        other.set_data_writable()
+                        other.data = Y.copy()
+                        other.set_data_protected()
+                        other.set_data_flag(TOTL)
+                        oy = numpy.array(other.d__data, dtype=numpy.complex128)
+                    except Exception as e:
+                        raise Violation("second-response-raises", "op %d: %s: %s" % (idx, type(e).__name__, e))
+                    check(numpy.array_equal(oy, Y), "view-equals-ledger-sum", "op %d: a second response does not hold the data assigned to it" % idx)
+                    ctx.probe("two_responses_filled_through_the_data_property")
                 check_views("op %d data assigned under flag %r at storage %s" % (idx, flag_of(view), S))
                 ctx.ev(idx, "setdata", repr(view), "accepted", fingerprint(X))
                 ctx.cov("setdata", S, was_init)
@@ -543,6 +561,36 @@ class World:
                 ctx.probe("container_passthrough")
                 ctx.ev(idx, "container")
                 ctx.cov("container", st["S"], bool(st["ledger"]))
+                # a container over waiting times, filled in an order that is not the order of its axis: what is read back for
+                # a waiting time (directly and after conversion to a container of spectra) is what was added for THAT time
+                t2axis = qr.TimeAxis(0.0, 3, 10.0)
+                c2 = TwoDResponseContainer(t2axis=t2axis)
+                order = [[20.0, 0.0, 10.0], [10.0, 20.0, 0.0], [0.0, 10.0, 20.0]][idx % 3]
+                exp2 = {}
+                try:
+                    for t2 in order:
+                        r = TwoDResponse()
+                        r.set_axis_1(qr.FrequencyAxis(0.0, nx, 1.0))
+                        r.set_axis_3(qr.FrequencyAxis(0.0, ny, 1.0))
+                        r.set_resolution("signals")
+                        r.set_t2(t2)
+                        a_, b_ = payload(int(t2) + 7 * idx + 1), payload(int(t2) + 7 * idx + 2)
+                        r._add_data(a_.copy(), dtype=REPH)
+                        r._add_data(b_.copy(), dtype=NONR)
+                        exp2[t2] = {REPH: a_, NONR: b_, TOTL: a_ + b_}
+                        c2.set_spectrum(r, tag=t2)
+                    for flag in (TOTL, REPH, NONR):
+                        sc = c2.get_TwoDSpectrumContainer(stype=flag)
+                        for t2 in t2axis.data:
+                            got2 = numpy.array(sc.get_spectrum(float(t2)).data, dtype=numpy.complex128)
+                            check(numpy.array_equal(got2, exp2[float(t2)][flag]), "container-view",
+                                  lambda: "spectrum container (%s): what is read back for t2=%r is not what was added for it" % (flag, float(t2)))
+                except Violation:
+                    raise
+                except Exception as e:
+                    raise Violation("container-view", "container over waiting times: %s: %s" % (type(e).__name__, e))
+                if order != sorted(order):
+                    ctx.probe("container_filled_out_of_axis_order")
             elif kind == "fault":
                 fk = op["kind"]
                 ctx.fault(fk)
